@@ -26,7 +26,7 @@ RULE = ('cases = default sets (plain, renamed one-to-one, one deprecated name sp
         'files defining both a deprecated name and a successor, or referencing a deprecated name via rule:) x tool '
         '(upgrade YAML/JSON in and out; convert JSON->YAML; policy-generator and list-redundant with a main file plus '
         'directory overrides, each name in at most one file, file rules spelled as textual variants of the default, as near misses (one operand of the top-level and/or dropped or '
-        'added), as always-allow ("", "@", []) or as different rules, no override under a deprecated name; in 40 % of these cases the files are rewritten after the first load and the tools then run on the living enforcer; namespaces hand their defaults over as a list or as a one-shot iterable). Decisions compared under all 16 subsets of 4 roles and 2 '
+        'added), as always-allow ("", "@", []) or as different rules, no override under a deprecated name; in 40 % of these cases the files are rewritten after the first load and the tools then run on the living enforcer; namespaces hand their defaults over as a list or as a one-shot iterable). Stratum "repeat" (same input again): ONE input policy text (YAML as dumped, YAML one rule per line, or JSON) is handed to several tools and enforcers back to back in one process - upgrade under two different default sets in both orders (renaming set, the same names all ordinary, the old names renamed to other successors, a fresh renaming set), convert then upgrade, generator / list-redundant / a fresh enforcer on the INPUT file right after a tool ran on it; the decisions of the input under each default set are measured first thing in the case, before any tool has seen the text, and every later output (and every later enforcer on the untouched input) is compared with them. Decisions compared under all 16 subsets of 4 roles and 2 '
         'targets. Non-trivial = the file overrides at least one registered or deprecated name; distinct = distinct (defaults, files, tool).')
 ASSUMPTIONS = ['default configuration (enforce_new_defaults and enforce_scope at their defaults), no scope types: "request scope matching"',
                'redundant rules are read from list-redundant output lines of the form "name": ... (pinned by the repository\'s ListRedundantTestCase)',
@@ -36,7 +36,7 @@ LEVEL_TEXT = ('Seeded sampling of (defaults, operator files) with targeted shape
 LEVEL_NOTE = 'trusted: a real Enforcer on the unmodified input as the oracle; the stevedore test manager stands for entry points'
 PLAN = {'quick': dict(shards=8, wall=80), 'thorough': dict(shards=16, wall=500)}
 MIN = {'evaluations': 400, 'upgrade_runs': 100, 'convert_runs': 100, 'generator_runs': 100, 'redundant_reports': 30, 'tools_on_living_enforcer': 30,
-       'decisions_compared': 20000}
+       'decisions_compared': 20000, 'same_input_repeats': 30, 'same_input_steps': 80, 'same_input_decisions_compared': 10000}
 ANCHORS = ['oslo_policy.generator:_convert_policy_json_to_yaml', 'oslo_policy.generator:_upgrade_policies',
            'oslo_policy.generator:_generate_policy', 'oslo_policy.generator:_list_redundant',
            'oslo_policy.generator:upgrade_policy', 'oslo_policy.generator:convert_policy_json_to_yaml']
@@ -255,6 +255,8 @@ def compare(ctx, case, tool, t_in, t_out, files_in, extra):
 def check_case(ctx, case):
     from oslo_config import cfg
     from oslo_policy import generator, policy
+    if case['tool'] == 'repeat':
+        return check_repeat(ctx, case)
     spec = case['defaults']
     ds = build_defaults(policy, spec)
     regnames = [d.name for d in ds]
@@ -393,6 +395,218 @@ def check_case(ctx, case):
         tree.cleanup()
 
 
+# ---- stratum 'repeat': the same input policy text handed to tools and enforcers several times in one process ----------
+
+OLD_NAMES = ['old:one', 'old:split']
+
+
+def build_set(policy, s):
+    """One default set of a repeat case.  'renamed' = build_defaults; 'plain' = the same names and the old names, all
+    ordinary registered policies; 'alt' = the old names renamed to OTHER successors (alt:...), the new: names ordinary."""
+    spec, shape = s['spec'], s['shape']
+    if shape == 'renamed':
+        return build_defaults(policy, spec)
+    ds = [policy.RuleDefault('base', spec['base'])]
+    if shape == 'plain':
+        ds.append(policy.RuleDefault('old:one', spec['one']['old']))
+        ds.append(policy.RuleDefault('new:one', spec['one']['new']))
+        ds.append(policy.RuleDefault('old:split', spec['split']['old']))
+        for i, cs in enumerate(spec['split']['new']):
+            ds.append(policy.RuleDefault('new:split%d' % i, cs))
+    elif shape == 'alt':
+        dep1 = policy.DeprecatedRule('old:one', spec['one']['old'], deprecated_reason='r', deprecated_since='s')
+        ds.append(policy.RuleDefault('alt:one', spec['one']['new'], deprecated_rule=dep1))
+        ds.append(policy.RuleDefault('new:one', spec['one']['old']))
+        dep2 = policy.DeprecatedRule('old:split', spec['split']['old'], deprecated_reason='r', deprecated_since='s')
+        for i, cs in enumerate(spec['split']['new']):
+            ds.append(policy.RuleDefault('alt:split%d' % i, cs, deprecated_rule=dep2))
+        for i, cs in enumerate(spec['split']['new']):
+            ds.append(policy.RuleDefault('new:split%d' % i, cs))
+    else:
+        raise ValueError(shape)
+    ds.append(policy.RuleDefault('same:x', spec['same']['new']))
+    ds.append(policy.RuleDefault('plain:x', spec['plain']))
+    return ds
+
+
+def renames_old(shape):
+    return shape in ('renamed', 'alt')
+
+
+def pick(t, names):
+    ns = set(names)
+    return {k: v for k, v in t.items() if k.split('|')[0] in ns}
+
+
+def compare_repeat(ctx, case, j, tool, t_ref, t_out, extra):
+    """Step j's output against the decisions measured before any tool saw the text."""
+    ctx.count('same_input_decisions_compared', len(t_ref))
+    if t_ref == t_out:
+        return True
+    diff = [k for k in t_ref if t_ref[k] != t_out.get(k)]
+    names = sorted({k.split('|')[0] for k in diff})
+    excs = sorted({str(t_out[k]) for k in diff if isinstance(t_out.get(k), str)})
+    if tool == 'enforcer':
+        key = 'input-policy-decides-differently-after-tool'
+    elif j == 0:
+        key = mechanism(tool, case['file'], names, excs[0][4:] if excs else None)       # a plain single run of the tool
+    else:
+        key = 'same-input-again-%s-changes-decisions' % tool
+    ctx.violation(key, case, dict(extra, tool=tool, step=j, steps_before=case['steps'][:j], file=case['file'], differing_names=names,
+                                  examples={k: [t_ref[k], t_out.get(k)] for k in diff[:4]}))
+    return False
+
+
+def check_repeat(ctx, case):
+    from oslo_config import cfg
+    from oslo_policy import generator, policy
+    f = case['file']
+    sets = [build_set(policy, s) for s in case['sets']]
+    tree = files.Tree(dirs=())
+    try:
+        registered = {d.name for ds in sets for d in ds}
+        ctx.case(case, nontrivial=any(n in f for n in registered), stratum='repeat')
+        ctx.count('same_input_repeats')
+        in_rel = 'in.json' if case['in_fmt'] == 'json' else 'in.yaml'
+        tree.write(in_rel, f, case['in_fmt'])
+        in_path = tree.path(in_rel)
+        # FIRST: what the policy the tools are given decides under each default set, before any tool has seen the text
+        allnames, ref = [], []
+        for ds in sets:
+            names = []
+            for n in [d.name for d in ds] + ['unknown:x'] + OLD_NAMES:
+                if n not in names:
+                    names.append(n)
+            allnames.append(names)
+            ref.append(table(enforcer_on(policy, tree, ds, in_rel), names))
+        for j, st in enumerate(case['steps']):
+            op, si = st['op'], st['set']
+            ds, names = sets[si], allnames[si]
+            surviving = [d.name for d in ds] + ['unknown:x']
+            ctx.count('same_input_steps')
+            ctx.count('same_input_steps.' + op)
+            again = 'same-input-again-' if j else ''
+            if op == 'enforcer':
+                # an enforcer that reads the (untouched) input file right after a tool ran on it
+                if not compare_repeat(ctx, case, j, 'enforcer', ref[si], table(enforcer_on(policy, tree, ds, in_rel), names), {}):
+                    return
+            elif op in ('upgrade', 'convert'):
+                out_rel = 'out%d.%s' % (j, st.get('out_fmt', 'yaml'))
+                out = tree.path(out_rel)
+                try:
+                    with mock.patch('stevedore.named.NamedExtensionManager', return_value=mgr_for({'ns': one_shot(ds, st.get('ns_obj'))})):
+                        if op == 'upgrade':
+                            generator.upgrade_policy(['--policy', in_path, '--namespace', 'ns', '--output-file', out,
+                                                      '--format', st['out_fmt']], conf=cfg.ConfigOpts())
+                        else:
+                            generator.convert_policy_json_to_yaml(['--policy-file', in_path, '--namespace', 'ns',
+                                                                   '--output-file', out], conf=cfg.ConfigOpts())
+                except BaseException as e:
+                    if isinstance(e, KeyboardInterrupt):
+                        raise
+                    key = mechanism(op, f, [], type(e).__name__) if j == 0 else '%s%s-crashes-%s' % (again, op, type(e).__name__)
+                    ctx.violation(key, case, {'tool': op, 'step': j, 'file': f, 'observed': '%s: %s' % (type(e).__name__, str(e)[:100])})
+                    return
+                tree.stamp(out)
+                try:
+                    enf_out = enforcer_on(policy, tree, ds, out_rel)
+                    enf_out.load_rules()
+                except Exception as e:
+                    key = mechanism(op, f, [], 'output-not-loadable') if j == 0 else '%s%s-crashes-output-not-loadable' % (again, op)
+                    ctx.violation(key, case, {'tool': op, 'step': j, 'file': f, 'output': open(out).read()[:600],
+                                              'observed': type(e).__name__ + ': ' + str(e)[:100]})
+                    return
+                cmp_names = surviving if op == 'upgrade' else names       # the deprecated names do not survive an upgrade
+                if not compare_repeat(ctx, case, j, op, pick(ref[si], cmp_names), table(enf_out, cmp_names),
+                                      {'output': open(out).read()[:600]}):
+                    return
+            else:
+                # generator / list-redundant on a fresh enforcer whose policy file is the input file
+                enf_in = enforcer_on(policy, tree, ds, in_rel)
+                buf = io.StringIO()
+                try:
+                    with mock.patch('stevedore.named.NamedExtensionManager', return_value=mgr_for({'ns': enf_in})), \
+                            contextlib.redirect_stdout(buf):
+                        cfg.CONF.reset()
+                        if op == 'generator':
+                            generator.generate_policy(['--namespace', 'ns'])
+                        else:
+                            generator.list_redundant(['--namespace', 'ns'])
+                except BaseException as e:
+                    if isinstance(e, KeyboardInterrupt):
+                        raise
+                    if op == 'generator':
+                        key = mechanism('generator', f, [], type(e).__name__) if j == 0 else '%sgenerator-crashes-%s' % (again, type(e).__name__)
+                    else:
+                        key = '%slist-redundant-crashes-%s' % (again, type(e).__name__)
+                    ctx.violation(key, case, {'tool': op, 'step': j, 'file': f, 'observed': '%s: %s' % (type(e).__name__, str(e)[:100])})
+                    return
+                finally:
+                    cfg.CONF.reset()
+                text = buf.getvalue()
+                if op == 'generator':
+                    out_rel = 'out%d.yaml' % j
+                    tree.write_text(out_rel, text)
+                    for label, with_defaults in (('beside-defaults', True), ('alone', False)):
+                        try:
+                            enf_out = enforcer_on(policy, tree, ds if with_defaults else [], out_rel)
+                            enf_out.load_rules()
+                        except Exception as e:
+                            key = (mechanism('generator', f, [], 'output-not-loadable') if j == 0
+                                   else '%sgenerator-crashes-output-not-loadable' % again)
+                            ctx.violation(key, case, {'tool': op, 'step': j, 'file': f, 'output': text[:600],
+                                                      'observed': type(e).__name__ + ': ' + str(e)[:100]})
+                            return
+                        if not compare_repeat(ctx, case, j, 'generator', pick(ref[si], surviving), table(enf_out, surviving),
+                                              {'output': text[:600], 'judged': label}):
+                            return
+                else:
+                    red = [n for n in f if any(l.startswith('"%s": ' % n) for l in text.splitlines())]
+                    if red:
+                        ctx.count('same_input_redundant_reports', len(red))
+                        red_rel = 'red%d.yaml' % j
+                        tree.write(red_rel, {k: v for k, v in f.items() if k not in red}, 'json')
+                        t_red = table(enforcer_on(policy, tree, ds, red_rel), names)
+                        ctx.count('same_input_decisions_compared', len(t_red))
+                        if t_red != ref[si]:
+                            diff = [k for k in ref[si] if ref[si][k] != t_red.get(k)]
+                            ctx.violation('%sredundant-rule-not-deletable' % again, case,
+                                          {'reported': red, 'step': j, 'steps_before': case['steps'][:j], 'file': f,
+                                           'examples': {k: [ref[si][k], t_red.get(k)] for k in diff[:4]}})
+                            return
+    finally:
+        tree.cleanup()
+
+
+def gen_repeat_case(rnd):
+    spec_a, spec_b = gen_defaults(rnd), gen_defaults(rnd)
+    shape_b = rnd.choice(['plain', 'plain', 'alt', 'renamed'])
+    sets = [dict(shape='renamed', spec=spec_a),
+            dict(shape=shape_b, spec=spec_b if (shape_b == 'renamed' or rnd.random() < 0.5) else spec_a)]
+    if rnd.random() < 0.5:
+        sets.reverse()
+    f = gen_file(rnd, spec_a, variants=0.3)
+    in_fmt = rnd.choice(['yaml', 'yaml', 'yaml-lines', 'json'])
+    steps = []
+    for j in range(rnd.randint(2, 4)):
+        si = j % 2 if rnd.random() < 0.7 else rnd.randrange(2)
+        ops = ['upgrade', 'upgrade', 'upgrade']
+        if j:
+            ops.append('enforcer')
+        if in_fmt == 'json':
+            ops += ['convert', 'convert']
+        if not (renames_old(sets[si]['shape']) and any(n in f for n in OLD_NAMES)):
+            ops += ['generator', 'generator', 'redundant']          # the quantifier: no operator override under a deprecated name
+        op = rnd.choice(ops)
+        st = dict(op=op, set=si)
+        if op in ('upgrade', 'convert'):
+            st['ns_obj'] = rnd.choice(['list', 'list', 'chain', 'generator'])
+        if op == 'upgrade':
+            st['out_fmt'] = rnd.choice(['yaml', 'json'])
+        steps.append(st)
+    return dict(tool='repeat', sets=sets, file=f, in_fmt=in_fmt, steps=steps)
+
+
 def gen_case(rnd):
     spec = gen_defaults(rnd)
     tool = rnd.choice(['upgrade', 'upgrade', 'convert', 'convert', 'generator', 'generator', 'generator'])
@@ -412,6 +626,7 @@ def gen_case(rnd):
 
 def run(ctx):
     rnd = ctx.rnd
+    rrnd = ctx.sub_rnd('repeat', ctx.tier, ctx.shard)
     for i in range(N[ctx.tier] // ctx.nshards + 1):
         if ctx.expired():
             break
@@ -419,7 +634,14 @@ def run(ctx):
         check_case(ctx, case)
         if i % 40 == 0:
             ctx.sample(case, case['tool'])
+        if i % 6 == 0:
+            # interleaved (own random stream, so the cases above stay what they were): the same input text again and again
+            rcase = gen_repeat_case(rrnd)
+            check_case(ctx, rcase)
+            if i % 36 == 0:
+                ctx.sample(rcase, 'repeat')
     ctx.stratum('random', exhaustive=False)
+    ctx.stratum('repeat', exhaustive=False)
 
 
 def replay(ctx, case):
